@@ -574,3 +574,70 @@ def tracer_boundary(cfg):
     cfg.ext["get"] = _opt_parent_get
     cfg.opaque_records["sdk::trace::IdGenerator"] = "xc_opaque"
     cfg.opaque_records["sdk::trace::Sampler"] = "xc_opaque"
+
+
+# ---------------------------------------------------------------------------------------------
+# TraceState / Baggage: shared_ptr<TraceState> is a plain pointer to a heap object; new -> malloc + constructor
+def _kv_ptr_type(em, base, targs, name):
+    if base in ("nostd::shared_ptr", "shared_ptr") and targs and targs[0].strip().split("::")[-1] in ("TraceState", "Baggage"):
+        inner = em._ctype(targs[0])
+        return CT(inner.base, inner.ptr + 1)
+    return None
+
+
+def _kv_new(em, n):
+    t = n["type"].get("qualType", "")
+    inner = [c for c in n.get("inner", []) if c.get("kind")]
+    if n.get("isArray"):
+        size = [c for c in inner if c["kind"] != "CXXConstructExpr"]
+        et = em.ctype(t)
+        elem = et.pointee()
+        if elem.base == "char":
+            em.report["new char[n] -> xc_new_chars (malloc)"] += 1
+            return "xc_new_chars(%s)" % em.expr(size[0])
+        cx = [c for c in inner if c["kind"] == "CXXConstructExpr"]
+        s2 = dict(cx[0]) if cx else {"type": {"qualType": elem.base}, "inner": []}
+        et2 = dict(s2["type"])
+        for key in ("qualType", "desugaredQualType"):
+            if key in et2:
+                et2[key] = _re.sub(r"\s*\[\d*\]$", "", et2[key])
+        s2["type"] = et2
+        em.report["new T[n] of a class type -> malloc + default construction of each element (XC_NEW_ARRAY)"] += 1
+        return "XC_NEW_ARRAY(%s, %s, %s)" % (elem.base, em.expr(size[0]), em.construct_expr(s2))
+    cx = [c for c in inner if c["kind"] == "CXXConstructExpr"]
+    et = em.ctype(t).pointee()
+    em.report["new T(args) -> malloc + constructor (XC_NEW)"] += 1
+    return "XC_NEW(%s, %s)" % (et.base, em.construct_expr(cx[-1]))
+
+
+def kv_boundary(cfg):
+    cfg.value_classes |= {"string_view"}
+    cfg.type_handlers.append(_kv_ptr_type)
+    cfg.ext["new"] = _kv_new
+    cfg.ctor_ext["nostd::shared_ptr"] = lambda em, node, args: (em.expr(args[0]) if args else "NULL")
+    cfg.ext_q["shared_ptr<trace::TraceState>::operator->"] = lambda em, node, recv, args: em.expr(recv)
+    cfg.ext_q["shared_ptr<baggage::Baggage>::operator->"] = lambda em, node, recv, args: em.expr(recv)
+    cfg.ext_q["TraceState::GetDefault"] = lambda em, node, recv, args: "xc_TraceState_GetDefault_ptr()"
+    cfg.ext_q["TraceState::IsValidKey"] = lambda em, node, recv, args: "xc_IsValidKey(%s)" % em.expr(args[0])
+    cfg.ext_q["TraceState::IsValidValue"] = lambda em, node, recv, args: "xc_IsValidValue(%s)" % em.expr(args[0])
+    cfg.ctor_ext["std::basic_string"] = _kv_str_ctor
+    cfg.ctor_ext["std::__cxx11::basic_string"] = _kv_str_ctor
+    for n in ("std::basic_string", "std::__cxx11::basic_string"):
+        cfg.ext_methods[n + "::operator="] = lambda em, recv, args, n: "%s = %s" % (recv, em.expr(args[0]))
+
+
+def _kv_str_ctor(em, node, args):
+    real = [a for a in args if a.get("kind") != "CXXDefaultArgExpr"]
+    if len(real) == 2:
+        return "((xc_str){%s, %s})" % (em.expr(real[0]), em.expr(real[1]))
+    if len(real) == 1:
+        t = em.ctype(real[0]["type"])
+        if t.base == "xc_str":
+            return em.expr(real[0])
+        lit = em._strip_all(real[0])
+        if lit.get("kind") == "StringLiteral":
+            import ast as _ast
+            return "{%s, %d}" % (lit["value"], len(_ast.literal_eval(lit["value"])))
+    if not real:
+        return "((xc_str){\"\", 0})"
+    raise ExtractionError("std::string construction with %d args" % len(real))
